@@ -1215,6 +1215,9 @@ impl Interpreter {
     ) -> Result<StepResult, JsError> {
         use bytecode_vm::VmResult;
 
+        if self.native_depth == 0 {
+            self.native_stack_base = native_stack_position();
+        }
         let result = vm.run(self);
 
         match result {
@@ -3662,6 +3665,9 @@ impl Interpreter {
         let vm_guard = self.heap.create_guard();
         let mut vm = BytecodeVM::with_guard(chunk, this_value, vm_guard);
 
+        if self.native_depth == 0 {
+            self.native_stack_base = native_stack_position();
+        }
         match vm.run(self) {
             VmResult::Complete(guarded) => Ok(guarded),
             VmResult::Error(err) => Err(err),
